@@ -199,6 +199,9 @@ def check_property(pid, tier, seed):
                                    histories_with_pending_at_end=r.stats["hist_with_pending"],
                                    histories_with_cancellation=r.stats["hist_with_granted_cancel"],
                                    judge_violations_all_props=sum(len(v) for v in r.viol.values()),
+                                   histories_cut_where_the_model_gives_up=sum(1 for m in r.model if m and "GAVEUP" in m),
+                                   longest_history=max((len(t[1]) for t in r.traces), default=0),
+                                   library_line_coverage=r.linecov,
                                    wall_s=round(time.time() - tf, 2))
         cov["evaluations"] += len(r.traces)
         cov["distinct_nontrivial"] += nontriv
